@@ -69,6 +69,14 @@ NO_PANIC_PREFIX = (
     "core::num::<impl u", "core::num::<impl i", "std::char::methods::<impl char>::", "<std::slice::Iter", "<std::slice::IterMut", "<std::iter::Enumerate<", "<std::iter::Zip<", "<std::iter::StepBy<", "<std::iter::Skip<",
     "num_bigint::bigint::addition::", "num_bigint::bigint::subtraction::", "num_bigint::bigint::multiplication::", "num_bigint::bigint::convert::",
 )
+# methods of the prefix-allowed impls (integers, char, iterator adaptors) that DO have a documented
+# panic condition: never covered by a prefix
+PANICKING_METHODS = {
+    "pow", "div_euclid", "rem_euclid", "ilog", "ilog2", "ilog10", "next_power_of_two", "next_multiple_of", "div_ceil", "isqrt",
+    "from_str_radix", "abs", "strict_add", "strict_sub", "strict_mul", "strict_div", "strict_rem", "strict_neg", "strict_shl", "strict_shr", "strict_pow",
+    "unchecked_add", "unchecked_sub", "unchecked_mul", "unchecked_shl", "unchecked_shr", "to_digit", "from_digit", "encode_utf8", "encode_utf16",
+    "step_by", "sum", "product", "unwrap", "expect", "nth_back", "advance_by", "array_chunks", "windows", "chunks", "chunks_exact", "rchunks", "copy_from_slice", "clone_from_slice", "swap", "split_at", "split_at_mut", "rotate_left", "rotate_right", "copy_within", "select_nth_unstable",
+}
 DOCUMENTED_PANICS = {
     ("server::SrpVerifier::into_proof", "expect"): "documented: invalid self-generated public key (astronomically unlikely)",
     ("client::SrpClientChallenge::new", "expect"): "documented: invalid self-generated client public key",
@@ -383,7 +391,7 @@ def call_obligation(ctx, rep, world, pr, p, b, bi, t, info, n_site, r32_sinks):
     if name == "num_bigint::BigInt::modpow" or ("std::ops::Rem" in name and "num_bigint" in name):
         rep.ok("bigint-precondition", p, "%s#%d" % (short, seq), "wrapper body: preconditions are checked at the formula level (rule bigint-precondition on callers)", b.loc(bi))
         return
-    if name in NO_PANIC_EXACT or any(name.startswith(x) for x in NO_PANIC_PREFIX):
+    if name in NO_PANIC_EXACT or (any(name.startswith(x) for x in NO_PANIC_PREFIX) and (short not in PANICKING_METHODS or (short in ("rotate_left", "rotate_right") and name.startswith("core::num::<impl")))):
         return
     if t.get("callee") in ("std::iter::Iterator::next", "std::ops::Deref::deref", "std::ops::DerefMut::deref_mut", "std::convert::From::from", "std::default::Default::default", "std::clone::Clone::clone"):
         return
